@@ -68,3 +68,51 @@ def tree_digest(root):
             with open(p, 'rb') as f:
                 out[os.path.relpath(p, root)] = hashlib.sha256(f.read()).hexdigest()
     return out
+
+
+def crash_site(tool, text, args=(), timeout=300, fname='in.exp'):
+    s = _crash_site(tool, text, args, timeout, fname, 'plain')
+    if s == 'unknown':
+        s = _crash_site(tool, text, args, timeout, fname, 'san')     # larger frames: the instrumented build may be the only one that overflows
+    return s
+
+
+def _crash_site(tool, text, args, timeout, fname, variant):
+    """where a signal that the sanitizer does not explain comes from: the plain build under gdb, innermost function of the
+    repository in the backtrace - 'recursion:<fn>' when one function fills the top of the stack.  Returns 'unknown' when gdb sees no signal."""
+    import collections
+    d = drv.scratch_dir('gdb')
+    try:
+        src = os.path.join(d, fname)
+        with open(src, 'wb') as f:
+            f.write(text if isinstance(text, bytes) else text.encode('latin1'))
+        outdir = os.path.join(d, 'out')
+        os.makedirs(outdir)
+        exe = build.tool(tool, variant)
+        cmd = ['gdb', '-q', '-batch', '-nx', '-ex', 'set disable-randomization on', '-ex', 'set environment ASAN_OPTIONS=handle_segv=0:handle_abort=0:detect_leaks=0',
+               '-ex', 'run', '-ex', 'bt 40', '--args', exe] + list(args)
+        if tool == 'exppp' and '-o' not in args:
+            cmd += ['-o', os.path.join(outdir, 'pp.exp')]
+        cmd.append(src)
+        rc, out, _ = common.run(cmd, timeout=timeout, cwd=outdir, merge=True)
+        txt = out.decode('latin1')
+        if 'received signal' not in txt:
+            return 'unknown'
+        frames = re.findall(r'^#\d+\s+(?:0x[0-9a-f]+ in )?([A-Za-z_][\w:~]*) \(.*?\) at (/repo/[^\s:]+):\d+', txt, re.M)
+        if not frames:
+            return 'unknown'
+        names = [f for f, _ in frames]
+        cnt = collections.Counter(names[:30])
+        rec = sorted(n for n, c in cnt.items() if c >= 6)
+        if rec:
+            # mutually recursive functions: name the alphabetically first, whichever happens to be on top
+            return 'recursion:%s@%s' % (rec[0], os.path.basename(dict(frames)[rec[0]]))
+        site = '%s@%s' % (frames[0][0], os.path.basename(frames[0][1]))
+        if frames[0][0].startswith('ERROR'):
+            # the front end aborts on purpose after some messages: which one
+            m = re.findall(r'(?:ERROR|WARNING) (P[EW]\d+)', txt)
+            if m:
+                site += ':' + m[-1]
+        return site
+    finally:
+        shutil.rmtree(d, ignore_errors=True)
